@@ -95,7 +95,7 @@ impl Property for C18 {
                 "os_entropy": false,
             });
         }
-        let kind = *rng.pick(&["star", "star_join", "group", "group", "distinct_real", "distinct_real", "join_real", "join_int", "join_int_real", "error_row", "group_special_real", "group_special_real", "name_lookup", "many_groups", "history"]);
+        let kind = *rng.pick(&["star", "star_join", "group", "group", "distinct_real", "distinct_real", "join_real", "join_int", "join_int_real", "error_row", "group_special_real", "group_special_real", "name_lookup", "many_groups", "history", "dup_names", "tz"]);
         let zero_heavy = kind == "distinct_real" || kind == "join_real" || kind == "group_special_real" || rng.chance(1, 4);
         // REAL values that are not ordinary numbers: NaN, infinities (legal literals for a REAL column)
         let special = kind == "group_special_real";
@@ -155,6 +155,10 @@ impl Property for C18 {
                 // the query names a table by a spelling that is not defined exactly; several look-alikes are
                 format!("SELECT * FROM {}", rng.pick(&["W", "wide", "Wide", "v2", "w "]).trim())
             }
+            // several output names used more than once (JSON output has one key per name)
+            "dup_names" => "SELECT c0 AS a, c1 AS a, c3 AS b, c4 AS b, c6 AS c, c7 AS c, c9 AS a FROM w".to_owned(),
+            // text turned into timestamps: local time in, local time out, whatever the zone
+            "tz" => "SELECT c0, '2022-10-11 22:00:00'::timestamp AS t1, '2021-03-28 02:30:00'::timestamp AS t2, EXTRACT(HOUR FROM '2022-01-05 07:08:09'::timestamp) AS h FROM w".to_owned(),
             "history" => format!("SELECT w.c0, v.c0, v.y, v.x FROM w {} JOIN v::'{}' ON w.c0 = v.c0", rng.pick(&["INNER", "OUTER"]), JOINED_PATH),
             "many_groups" => format!(
                 "SELECT {} COUNT(*) AS a0, SUM(c4) AS a1, COUNT(DISTINCT c3) AS a2 FROM w GROUP BY {}{}",
@@ -207,7 +211,7 @@ impl Property for C18 {
             "joined": joined,
             "keys": keys_to_json(&keys),
             "repeat": rng.range(1, 3),
-            "format": if special { *rng.pick(&["text", "csv"]) } else { *rng.pick(&["text", "json", "csv"]) },
+            "format": if special { *rng.pick(&["text", "csv"]) } else if kind == "dup_names" { "json" } else { *rng.pick(&["text", "json", "csv"]) },
             "os_entropy": rng.chance(1, 16),
         })
     }
@@ -336,6 +340,19 @@ impl Property for C18 {
                 return out;
             }
             out.probe("os_entropy_runs", 1);
+        }
+        if kind == "tz" {
+            // the zone of the process is ambient state as well: local time in, local time out
+            for tz in ["JST-9", "XYZ+3:30", "UTC0", "AAA-13"] {
+                let mut b = make(Some(k0), 1);
+                b.tz = Some(tz.to_owned());
+                let r = run(&mut out, &format!("TZ={}", tz), &b, false);
+                if status_label(&r.status) != s0 || records(&r) != r0 {
+                    out.violate("c18.depends_on_environment", format!("{}: with TZ={} the output is {} {} but with TZ=UTC it is {} {}", stmt, tz, status_label(&r.status), show(&records(&r)), s0, show(&r0)), features.clone());
+                    return out;
+                }
+            }
+            out.probe("time_zones_varied", 1);
         }
         if kind == "history" {
             // What ran earlier in the process must not matter: the same query Q, then a query P that joins the
